@@ -49,6 +49,7 @@ from _delb.exceptions import (
 from _delb.names import (
     GLOBAL_PREFIXES,
     XML_NAMESPACE,
+    XMLNS_NAMESPACE,
     deconstruct_clark_notation,
     Namespaces,
 )
@@ -808,6 +809,7 @@ class TagAttributes(MutableMapping):
 
     def __setitem__(self, item: AttributeAccessor, value: str | Attribute):
         qualified_name = self.__resolve_accessor(item)
+        self._validate_name(*qualified_name)
         key = self._etree_key(qualified_name)
         if isinstance(value, Attribute):
             value = value.value
@@ -819,6 +821,12 @@ class TagAttributes(MutableMapping):
         return str(self.as_dict_with_strings())
 
     __repr__ = __str__
+
+    @staticmethod
+    def _validate_name(namespace: str, name: str):
+        # https://www.w3.org/TR/xml-names/#xmlReserved
+        if name == "xmlns" or namespace == XMLNS_NAMESPACE:
+            raise ValueError("`xmlns` is reserved for namespace declarations.")
 
     def __resolve_accessor(self, item: AttributeAccessor) -> QualifiedName:
         if isinstance(item, str):
